@@ -23,6 +23,7 @@ import (
 	"net/http"
 	"net/url"
 	"strings"
+	"sync"
 	"time"
 
 	corev3 "github.com/envoyproxy/go-control-plane/envoy/config/core/v3"
@@ -48,6 +49,10 @@ var (
 		{Header: &corev3.HeaderValue{Key: inthttp.HeaderCacheControl, Value: inthttp.HeaderCacheControlNoCache}},
 		{Header: &corev3.HeaderValue{Key: inthttp.HeaderPragma, Value: inthttp.HeaderPragmaNoCache}},
 	}
+
+	// wellKnownConfigMu serializes the resolution of the discovered settings into the shared
+	// OIDC configuration objects. See loadWellKnownConfig.
+	wellKnownConfigMu sync.Mutex
 
 	// ErrMissingLogoutRedirectURI is returned when the logout redirect uri is missing because it was not explicitly
 	// configured or the OIDC Discovery did not return it.
@@ -856,14 +861,27 @@ func loadWellKnownConfig(client *http.Client, cfg *oidcv1.OIDCConfig) error {
 		return err
 	}
 
-	cfg.AuthorizationUri = wellKnownConfig.AuthorizationEndpoint
-	cfg.TokenUri = wellKnownConfig.TokenEndpoint
+	// The configuration object is shared by all the requests of the filter and this function runs for
+	// every one of them. Resolve the discovered settings under a lock and only write a field when its
+	// value actually changes: after the first request nothing is written any more, and every request
+	// has gone through the lock before it reads the resolved values.
+	wellKnownConfigMu.Lock()
+	defer wellKnownConfigMu.Unlock()
+
+	if cfg.AuthorizationUri != wellKnownConfig.AuthorizationEndpoint {
+		cfg.AuthorizationUri = wellKnownConfig.AuthorizationEndpoint
+	}
+	if cfg.TokenUri != wellKnownConfig.TokenEndpoint {
+		cfg.TokenUri = wellKnownConfig.TokenEndpoint
+	}
 	if cfg.GetJwksFetcher() == nil {
 		cfg.JwksConfig = &oidcv1.OIDCConfig_JwksFetcher{
 			JwksFetcher: &oidcv1.OIDCConfig_JwksFetcherConfig{},
 		}
 	}
-	cfg.GetJwksFetcher().JwksUri = wellKnownConfig.JWKSURL
+	if cfg.GetJwksFetcher().JwksUri != wellKnownConfig.JWKSURL {
+		cfg.GetJwksFetcher().JwksUri = wellKnownConfig.JWKSURL
+	}
 
 	if cfg.GetLogout() != nil && cfg.GetLogout().GetRedirectUri() == "" {
 		if wellKnownConfig.EndSessionEndpoint == "" {
